@@ -157,6 +157,34 @@ func (s *Session) BigStalledCommit(r *RNG) string {
 	return res
 }
 
+// FreeTail leaves a free region at the end of the data area of a bounded file.
+func (s *Session) FreeTail(r *RNG) {
+	if s.F == nil || s.Tx != nil {
+		return
+	}
+	if s.Begin(TxOpts{}) != "ok" {
+		return
+	}
+	ids, res := s.Alloc(8 + r.Intn(12))
+	if res == "ok" {
+		for _, id := range ids {
+			s.Write(id, "full")
+		}
+	}
+	if s.Commit() != "ok" || res != "ok" {
+		return
+	}
+	if s.Begin(TxOpts{}) != "ok" {
+		return
+	}
+	k := 3 + r.Intn(6)
+	for i := len(ids) - 1; i >= 0 && k > 0; i, k = i-1, k-1 {
+		s.Free(ids[i])
+	}
+	s.Commit()
+	s.mark("free-tail")
+}
+
 // ShrinkBelowFileSize lowers the limit of a preallocated file below its size (but above everything in
 // use): the next commit truncates the file, which replaces the memory mapping.
 func (s *Session) ShrinkBelowFileSize(r *RNG) bool {
@@ -180,17 +208,34 @@ func (s *Session) ShrinkBelowFileSize(r *RNG) bool {
 		return false
 	}
 	newMax := need + uint64(r.Intn(int(fs.MaxPages-need)))
+	if n := len(fs.DataFree); n > 0 && r.Chance(50) {
+		// a limit INSIDE a free region that reaches the end of the data area: Open releases the excess pages
+		// in a transaction of its own (initTxReleaseRegions), later commits release what is left
+		last := fs.DataFree[n-1]
+		min := uint64(65536) / ps
+		if lo := last[0] + 1; last[0]+last[1] == fs.DataEnd && fs.MetaEnd <= fs.DataEnd && last[1] > 1 && fs.DataEnd > min+1 {
+			if lo < min {
+				lo = min
+			}
+			if lo < fs.DataEnd {
+				newMax = lo + uint64(r.Intn(int(fs.DataEnd-lo)))
+				s.mark("shrink-into-free-tail")
+			}
+		}
+	}
 	s.CloseFile()
 	s.Cfg.InitMeta = 0
 	opts := s.Cfg.Options()
 	opts.Flags |= txfile.FlagUpdMaxSize
 	opts.MaxSize = newMax * ps
+	s.resized = true // from here on the limit on disk may be the new one, whatever Open reports
 	if res := s.OpenWith(opts, "resize-shrink"); res != "ok" {
 		s.fail("C14", "resize-open", "shrinking a preallocated file from %d to %d pages failed: %s", fs.MaxPages, newMax, res)
-		s.OpenWith(s.Cfg.Options(), "open")
+		if s.OpenWith(s.Cfg.Options(), "open") == "ok" {
+			s.Cfg.MaxPages = s.F.VerifSnapshot().MaxPages
+		}
 		return false
 	}
-	s.resized = true
 	s.Cfg.MaxPages = newMax
 	return true
 }
@@ -518,12 +563,49 @@ func RunFaultProgram(r *RNG, cfg Config, p Params) (*Session, FaultStats) {
 		return s, st
 	}
 	if truncPath {
-		if s.ShrinkBelowFileSize(r) {
+		if r.Chance(60) {
+			s.FreeTail(r)
+		}
+		openFault := r.Chance(40)
+		if openFault {
+			// an I/O error inside the shrinking Open itself (max-size update / release of the excess pages)
+			k := []string{"write", "write", "sync"}[r.Intn(3)]
+			base, _ := s.Disk.CallCounts()
+			from := base[k] + r.Intn(4)
+			s.Disk.SetFault(func(kk string, n, total int) simdisk.Action {
+				if kk == k && n == from {
+					s.IOFault = true
+					return simdisk.ActErr
+				}
+				return simdisk.ActOK
+			})
+			s.mark("fault-in-shrinking-open")
+			// The acceptor follows ONE engine instance through the commit protocol of ordinary
+			// transactions. An Open failing under a fault ends the instance in the middle of the header-only
+			// max-size transaction (no restore: the header names the unchanged state), its cleanup
+			// truncates, and the next instance re-reads the headers: the log is not walked past this point
+			// (the oracles below check the outcome).
+			s.Disk.Mark("acceptor-stop")
+		}
+		noFail := len(s.Failures)
+		ok := s.ShrinkBelowFileSize(r)
+		s.Disk.SetFault(nil)
+		if ok {
 			s.mark("shrink-below-file-size")
+		} else if openFault {
+			// the Open may fail under the fault; that is an error result, not a violation: the file must open again
+			s.Failures = s.Failures[:noFail]
+
+			if s.F == nil && s.Open() != "ok" {
+				s.fail("C08", "fault-open", "the file can not be opened after an Open that failed with an I/O error")
+				return s, st
+			}
 		}
 		if s.F == nil {
 			return s, st
 		}
+		s.ReadCheck("C08")
+		s.AccountCheck()
 	}
 	// fault window
 	act := simdisk.ActErr
@@ -638,6 +720,11 @@ func RunFaultProgram(r *RNG, cfg Config, p Params) (*Session, FaultStats) {
 		}
 		s.CloseFile()
 		allowed := append([]SpecState{s.specState(-1)}, maybe...)
+		if s.resized {
+			for i := range allowed {
+				allowed[i].LeakOK = true
+			}
+		}
 		res := CheckImage(s.Disk.Contents(), s.Cfg.Options(), allowed, false)
 		// A commit whose final sync failed leaves a valid newer header in the
 		// inactive slot while the process goes on with the old state and re-uses
